@@ -29,9 +29,12 @@ SnpRows == {r \in [tech : {"snp"}, listed : SUBSET Counts, svsm : BOOLEAN, short
                    \* carries no digest at all ("absent": nothing endorsed equals the expectation)
                    digest : {"none", "eq", "diff", "absent"},
                    entry : {"SNP", "EndorsementProto", "SNPFunc", "SevValidate", "cli_sev"},
-                   table : {"none", "other"}] :
+                   table : {"none", "other"},
+                   \* the CLI's --allow_unspecified_vmsas next to --launch_vmsas: validation names the count all the same
+                   unspec : BOOLEAN] :
               /\ (r.table = "other" => r.entry \in {"SevValidate", "cli_sev"} /\ r.digest = "none")
-              /\ (r.digest = "absent" => r.entry \in {"EndorsementProto", "SNPFunc"})}
+              /\ (r.digest = "absent" => r.entry \in {"EndorsementProto", "SNPFunc"})
+              /\ (r.unspec => r.entry = "cli_sev" /\ r.table = "none" /\ r.digest = "none")}
 TdxIds == {"d0", "r16", "r16e", "r32"}
 RamOf(id) == IF id = "d0" THEN 0 ELSE IF id = "r32" THEN 32 ELSE 16
 \* base: the caller's base policy; "mixed" = it already carries an MRTD allow-list made of one endorsed
